@@ -3,7 +3,6 @@ package fs
 import (
 	"cmp"
 	"encoding/binary"
-	"iter"
 	"path/filepath"
 	"slices"
 	"strings"
@@ -163,42 +162,6 @@ func (l dirItemList) collectFiles() []fileItem {
 }
 
 type filesList []fileItem
-
-// filesToRead finds files that should be read by given toRead (limit) and offset (since disk start).
-func (l filesList) filesToRead(toRead, offset sizeBytes) iter.Seq[*fileItem] {
-	return func(yield func(item *fileItem) bool) {
-		// find a file where offset goes between start and end (aligned to sector)
-		// we assume that files are not overlapping
-		startFile, found := slices.BinarySearchFunc(l, offset.floorSectors(),
-			func(item fileItem, target sizeSectors) int {
-				switch {
-				case target < item.rLBA: // target sector before file
-					return 1
-				case target >= item.rLBA+item.size.sectors(): // target sector after file
-					return -1
-				default: // target sector inside file
-					return 0
-				}
-			},
-		)
-
-		if !found {
-			return
-		}
-
-		for i := startFile; i < len(l) && toRead > 0; i++ {
-			file := &l[i]
-			if !yield(file) {
-				return
-			}
-
-			// file size may be actually not aligned to sector
-			read := file.size.sectors().bytes() - (offset - file.rLBA.bytes())
-			toRead -= read
-			offset += read
-		}
-	}
-}
 
 func fixDirLBA(entries []directoryEntry, dirLBA, filesLBA sizeSectors) {
 	for i := 0; i < len(entries); i++ {
